@@ -15,7 +15,8 @@ RULE = ("enumerated: every public client operation x a string of length 0/1/3276
         "topic argument; existing and unknown topics), x extreme i64 offsets/times and i32 max_bytes, x fetch settings, compression and "
         "both offset storages; random: 2-5 calls per case over clusters of 1-3 brokers, 1-4 topics (names incl. empty, multi-byte and "
         "32767-byte ones), 1-5 partitions (up to 40 in the 'many' family), leaderless partitions, duplicate and unknown arguments, empty "
-        "lists; scripted coordinator retries; unreachable bootstrap hosts; 6 fixed cases start the correlation counter near 2^30 through "
+        "lists; scripted coordinator retries; unreachable bootstrap hosts; a broker missing from the broker list of a later by-name reload "
+        "(the topics that were not reloaded keep their leaders); 6 fixed cases start the correlation counter near 2^30 through "
         "the verification hook; non-trivial = some call of the case put at least two topic-partitions on the wire or the case carries a "
         "boundary value (string length 0/32767/32768/40000, an extreme integer, an empty list)")
 ASSUMPTIONS = ["kproto.parse_request is an independent strict reading of the Kafka 0.8/0.9 request grammar (golden layouts in its self-test)",
@@ -1023,6 +1024,30 @@ def fam_bootstrap(rng, n):
     return cases
 
 
+def fam_broker_leaves(rng, n):
+    """three brokers; after the full load one of the first two is missing from the broker list of a later answer to a load BY NAME
+    of a topic it does not lead (it left the cluster's listing, its partitions of the other topics were not asked about): what the
+    client knows about the topics that were not reloaded still names their leaders, and every later request must go to them"""
+    cases = []
+    for i in range(n):
+        g = G(rng, "broker-leaves")
+        x = rng.choice([1, 2])
+        rest = [b for b in (1, 2, 3) if b != x]
+        spec = {"brokers": brokers(3), "logs": {},
+                "topics": {b"ra": [rng.choice(rest) for _ in range(rng.randint(1, 3))],
+                           b"tb": [x, 3, x, rest[0]][:rng.randint(2, 4)], b"tc": [3, x]}}
+        body = {"brokers": [{"node_id": nid, "host": h, "port": p} for nid, (h, p) in sorted(spec["brokers"].items()) if nid != x],
+                "topics": [{"error": 0, "topic": b"ra", "partitions": [{"error": 0, "id": k, "leader": l, "replicas": [], "isr": []}
+                                                                       for k, l in enumerate(spec["topics"][b"ra"])]}]}
+        ops = boot_ops(spec) + [warm_up(spec), {"op": T("load_metadata", [[b"ra"]]), "mutate": {"kind": "body", "api": "metadata", "body": body}}]
+        kinds = ["fetch_offsets", "list_offsets", "fetch_messages", "produce_messages", "fetch_topic_offsets"]
+        rng.shuffle(kinds)
+        for k in kinds[:rng.randint(2, 4)]:
+            ops.append(normal_op(g, spec, k, topic=rng.choice([b"tb", b"tc"])))
+        cases.append(finish(g, spec, ops))
+    return cases
+
+
 def gen(rng, tier):
     quick = tier == "quick"
     cases = fam_strings(rng) + fam_numbers(rng) + fam_settings(rng)
@@ -1030,5 +1055,6 @@ def gen(rng, tier):
     cases += fam_random(rng, 40 if quick else 600, many=True)
     cases += fam_scripted(rng, 24 if quick else 300)
     cases += fam_bootstrap(rng, 12 if quick else 100)
+    cases += fam_broker_leaves(rng, 16 if quick else 150)
     cases += fam_wrap(rng)
     return cases
